@@ -99,7 +99,7 @@ CHECKS = {
  "C19": {
   "level": "proof",
   "technique": "Coq proof of FieldNumber.String for every int32 + error (field,class) correspondence",
-  "text": "Proved in Coq for all values/sizes (no bound): String never panics and yields the canonical decimal numeral whose value is the number (C19_str); a wrong wire type is reported with the field's own number. PARTIAL: other error paths are tied by comparing (field, class) of model and implementation errors on reader grids.",
+  "text": "Proved in Coq for all values/sizes (no bound): String never panics and yields the canonical decimal numeral whose value is the number (C19_str); a wrong wire type is reported with the field's own number (C19_err_wire); a typed reader that starts without error reports, for a wrong wire type or an unparsable value alike, nothing but the number it was called for, and only when that number is the pending one - the number in the offending record's tag (C19_reader_names_itself, C19_repeated_reader_names_itself); whole messages (Schema/ErrName.v, C19_unmarshal_error_names_field): for the Decode methods of ANY program list, ANY input and ANY starting message, the number in a wire-type/unparsable-value error returned by Unmarshal is a field number declared in the schema at some nesting level, or sub-field 1/2 of a map entry/Timestamp/Duration, or - only when a message captures unrecognized fields - an unknown field's own number; cursor errors carry 0. PARTIAL: that it is the FIRST offending record's number is proved at reader level only; for whole messages it is tied per run by comparing (field, class) of the model's and the implementation's Unmarshal errors on 6000 malformed inputs and the deep-nesting inputs, and the last eight errors returned must keep their text after every later call.",
   "note": "Trusted: Coq 8.16.1 kernel (vm_compute, no native_compute, no axioms: Print Assumptions recorded in evidence), extraction with ExtrOcamlBasic, the OCaml driver, the Go harness and generators, protobuf-go v1.31.0 as oracle. The tie between model and Go code is differential testing on the projection named in the level text, not proof.",
   "ref": "8 C19"
  },
